@@ -1,11 +1,11 @@
 #!/bin/sh
 # usage: tools/seed_intake_batch.sh <round-suffix> <jobs>   e.g.  r3 4
-# Confirms every /tmp/seedwt/<PROP><suffix>/out/c<k>/ through tools/seed_intake.py (stored as seeded/<PROP>-c<k>), <jobs> at a time.
+# Confirms every /tmp/seedwt/<PROP><suffix>/out/c<k>/ through tools/${INTAKE:-seed_intake.py} (stored as seeded/<PROP>-c<k>), <jobs> at a time.
 suffix=$1; jobs=${2:-4}
 cd "$(dirname "$0")/.."
-mkdir -p /tmp/verif-mutants /tmp/intake-logs
+mkdir -p /tmp/verif-mutants /tmp/${INTAKE:-seed_intake.py}-logs
 ls -d /tmp/seedwt/*${suffix}/out/c* /tmp/seedwt/*${suffix}/out/extra_c* 2>/dev/null | while read d; do
   prop=$(echo "$d" | sed "s#/tmp/seedwt/\(C[0-9]*\)${suffix}/out/.*#\1#")
   name=$(basename "$d" | sed 's/extra_//')
   echo "$prop $name $d"
-done | xargs -P "$jobs" -L 1 sh -c '/venv/bin/python tools/seed_intake.py $0 $1 $2 > /tmp/intake-logs/$0-$1.log 2>&1; echo "$0-$1 $(grep -o "\"confirmed\": [a-z]*" /tmp/intake-logs/$0-$1.log) check_rc=$(grep -A3 "\"check\"" /tmp/intake-logs/$0-$1.log | grep -o "\"rc\": [0-9]*" | head -1)"'
+done | xargs -P "$jobs" -L 1 sh -c '/venv/bin/python tools/${INTAKE:-seed_intake.py} $0 $1 $2 > /tmp/${INTAKE:-seed_intake.py}-logs/$0-$1.log 2>&1; echo "$0-$1 $(grep -o "\"confirmed\": [a-z]*" /tmp/${INTAKE:-seed_intake.py}-logs/$0-$1.log) check_rc=$(grep -A3 "\"check\"" /tmp/${INTAKE:-seed_intake.py}-logs/$0-$1.log | grep -o "\"rc\": [0-9]*" | head -1)"'
